@@ -247,6 +247,11 @@ where
             .ok_or(PlanningError::PlannerUninitialised)?;
         let goal = &pd.goal;
 
+        // A start state rejected by the validity checker must not become part of a solution.
+        if !vc.is_valid(&pd.start_states[0]) {
+            return Err(PlanningError::InvalidStartState);
+        }
+
         // Main loop
         loop {
             // 1. Check for timeout
